@@ -44,7 +44,7 @@ type C13Plan struct {
 	Items   []C13Item       `json:"items"`
 	ByUnits int             `json:"by_units"`
 	GbStorm int             `json:"gb_storm,omitempty"` // GB28181: rounds of (later packet buffered, earlier packet malformed) before the items
-	V       int             `json:"v,omitempty"` // generator version of the hostile-shape tables (replays of older plans keep their shapes)
+	V       int             `json:"v,omitempty"`        // generator version of the hostile-shape tables (replays of older plans keep their shapes)
 }
 
 // c13V is the shape-table version of the plan being run (set at the start of each run).
